@@ -631,15 +631,53 @@ theorem tar_b256_field_roundtrip (n : Nat) (h : n < 256 ^ 11) : parseB256 (b256F
   simp only [parseB256, b256Field, if_true]
   rw [beNat_toBE, Nat.mod_eq_of_lt h]
 
-/- FULL STATEMENT (false of the current code): `tar_roundtrip` also for members whose size field is written in base-256
-   (every member of 8 GiB or more; GNU tar, star, Python's tarfile and Go's archive/tar all read the field for any value).
-   Witness: an intact archive with one 3 byte member whose size is stored as 80 00 … 03 decodes to an error with no file:
-   fq only knows octal text (tar.go:57-60 `could not decode size`); replayed on the real binary (see DESIGN / report). -/
-theorem tar_base256_size_is_error :
-    parseTar (writeTarB256 { exMember with chksum := 0 }) = ⟨[], none, true⟩ ∧
-    (writeTarB256 { exMember with chksum := 0 }).length = 2048 ∧
-    parseTar (writeTar [{ exMember with chksum := 0 }]) = ⟨[TarMember.entry { exMember with chksum := 0 }], some 1024, false⟩ := by
-  decide +kernel
+/-- fq's `fieldNumber` (after the repair) on such a field: every value below 2^63 is recovered; and on an octal field it is the
+    octal reader it always was -/
+theorem tar_number_field (n : Nat) (h : n < 2 ^ 63) (w m : Nat) (hw : 2 ≤ w) (hm : m < 8 ^ (w - 1)) (h64 : m < 2 ^ 64) :
+    tarNum (b256Field n) = some n ∧ tarNum (octField w m) = some m ∧ tarNum (octField w m) = parseOct (cstr (octField w m)) :=
+  ⟨tarNum_b256 n h, tarNum_field w m hw hm h64, tarNum_oct _ (octField_head w m hw)⟩
 
+/-- values that do not fit 63 bits get no number (for the size field: `could not decode size`) -/
+example : tarNum (0x80 :: toBE 11 (2 ^ 63)) = none ∧ tarNum (0x80 :: toBE 11 (2 ^ 64)) = none ∧ tarNum (0xff :: toBE 11 5) = none := by decide +kernel
+
+/-- `tar_roundtrip` (above) already quantifies over members whose size is written in base-256 (`b256 := true`, any size below
+    2^63, i.e. also 8 GiB and more) mixed freely with octal ones.  Stated on its own: an archive in which EVERY member uses
+    base-256 — any number of members, any names, payloads, sizes — is decoded to exactly the members written -/
+theorem tar_base256_size_roundtrip (ms : List TarMember) (hne : ms ≠ []) (hok : ∀ m ∈ ms, TarOk m) (hb : ∀ m ∈ ms, m.b256 = true) :
+    parseTar (writeTar ms) = ⟨ms.map TarMember.entry, some 1024, false⟩ ∧
+    ∀ m ∈ ms, m.data.length < 2 ^ 63 ∧ ((writeTarMember m).drop 124).take 12 = b256Field m.data.length := by
+  refine ⟨Proofs.C15.tar_roundtrip ms hne hok, ?_⟩
+  intro m hm
+  have ok := hok m hm
+  have hs := ok.size
+  simp only [hb m hm, if_true] at hs
+  refine ⟨hs, ?_⟩
+  have e : writeTarMember m = (padNul 100 m.name ++ octField 8 m.mode ++ octField 8 m.uid ++ octField 8 m.gid) ++
+      (b256Field m.data.length ++ (octField 12 m.mtime ++ octField 8 m.chksum ++ [m.typeflag] ++ padNul 100 m.linkname ++ padNul 6 ustar ++
+      octField 2 m.version ++ padNul 32 m.uname ++ padNul 32 m.gname ++ octField 8 m.devmajor ++ octField 8 m.devminor ++
+      padNul 155 m.pfx ++ List.replicate 12 0 ++ m.data ++ List.replicate (blockPad m.data.length) 0)) := by
+    simp [writeTarMember, writeTarHeader, tarSizeField, hb m hm, List.append_assoc]
+  have hl : (padNul 100 m.name ++ octField 8 m.mode ++ octField 8 m.uid ++ octField 8 m.gid).length = 124 := by
+    simp only [List.length_append, padNul_length _ _ ok.name.1, octField_length 8 _ (by decide)]
+  rw [e, List.drop_append_of_le_length (by omega), List.drop_of_length_le (by omega), List.nil_append]
+  rw [List.take_append_of_le_length (by rw [b256Field_length]; omega)]
+  rw [List.take_of_length_le (by rw [b256Field_length]; omega)]
+
+def exMemberB : TarMember := { exMember with chksum := 0, b256 := true }
+
+example : TarOk exMemberB :=
+  ⟨⟨by decide, by decide, by decide⟩, ⟨by decide, by decide, by decide⟩, ⟨by decide, by decide, by decide⟩,
+   ⟨by decide, by decide, by decide⟩, ⟨by decide, by decide, by decide⟩,
+   by decide, by decide, by decide, by decide, by decide, by decide, by decide, by decide, by decide⟩
+
+/-- REGRESSION (defect repaired by `fix: tar: decode base-256 …`): the ORIGINAL decoder (`tarOldParse`: octal text only) rejected
+    an intact archive whose one 3 byte member has its size stored as 80 00 … 03 (`could not decode size`, no file), the
+    repaired decoder reports the member; on the same member written in octal the two agree -/
+theorem tarOld_base256_size_rejected :
+    tarOldParse (writeTar [exMemberB]) = ⟨[], none, true⟩ ∧
+    parseTar (writeTar [exMemberB]) = ⟨[exMemberB.entry], some 1024, false⟩ ∧
+    (writeTar [exMemberB]).length = 2048 ∧
+    tarOldParse (writeTar [{ exMemberB with b256 := false }]) = parseTar (writeTar [{ exMemberB with b256 := false }]) := by
+  decide +kernel
 
 end Props.C15
